@@ -261,6 +261,62 @@ func Serialize(c Cell, name string, value any, reverse bool) Serialized {
 // cell: a string leaf containing a delimiter of the style, an empty string inside a collection, or an
 // empty collection.
 func Ambiguous(c Cell, value any) bool {
+	return ambiguous(c, value, false)
+}
+
+// AmbiguousEscaped is the tighter reading for query parameters: the query string percent-encodes reserved characters,
+// so only the separator the style itself puts *between the members of a collection* (and, for deepObject, brackets
+// in property names) cannot be told apart; a primitive value is never ambiguous.
+func AmbiguousEscaped(c Cell, value any) bool {
+	if c.In != "query" {
+		return ambiguous(c, value, false)
+	}
+	return ambiguous(c, value, true)
+}
+
+func ambiguous(c Cell, value any, escaped bool) bool {
+	if escaped {
+		sep := ""
+		switch {
+		case c.Style == "form" && !c.Explode:
+			sep = ","
+		case c.Style == "spaceDelimited":
+			sep = " "
+		case c.Style == "pipeDelimited":
+			sep = "|"
+		}
+		var inColl func(v any) bool
+		inColl = func(v any) bool {
+			switch x := v.(type) {
+			case string:
+				return x == "" || (sep != "" && strings.Contains(x, sep))
+			case []any:
+				if len(x) == 0 {
+					return true
+				}
+				for _, e := range x {
+					if inColl(e) {
+						return true
+					}
+				}
+			case map[string]any:
+				if len(x) == 0 {
+					return true
+				}
+				for k, e := range x {
+					if inColl(e) || (sep != "" && strings.Contains(k, sep)) || (c.Style == "deepObject" && strings.ContainsAny(k, "[]")) {
+						return true
+					}
+				}
+			}
+			return false
+		}
+		switch value.(type) {
+		case []any, map[string]any:
+			return inColl(value)
+		}
+		return false
+	}
 	delims := ","
 	switch c.Style {
 	case "label":
